@@ -480,3 +480,76 @@ Proof.
   pose proof (N.mod_lt h (Z.to_N n) Hn) as Hlt. split; [|exact Hlt].
   f_equal. apply N.mod_small. lia.
 Qed.
+
+(* ------------------------------------------------------------------ distance to the real formula *)
+Local Open Scope R_scope.
+
+Lemma RN_err_01 z : 0 <= z <= 1 -> Rabs (RN z - z) <= bpow radix2 (-53).
+Proof.
+  intros [H0 H1].
+  apply Rle_trans with (/ 2 * ulp radix2 fexp64 z).
+  - apply error_le_half_ulp; auto with typeclass_instances.
+  - apply Rle_trans with (/ 2 * ulp radix2 fexp64 1).
+    + apply Rmult_le_compat_l. lra. apply ulp_le_pos; auto with typeclass_instances.
+    + change 1 with (bpow radix2 0) at 1. rewrite ulp_bpow.
+      change (bpow radix2 (fexp64 (0 + 1))) with (bpow radix2 (-52)).
+      change (/ 2) with (bpow radix2 (-1)). rewrite <- bpow_plus. apply Rle_refl.
+Qed.
+
+Lemma floor_sat_close P : 0 <= P <= 1 ->
+  let t := Z.min (Zfloor (IZR two128 * P)) (two128 - 1) in
+  (0 <= t < two128)%Z /\ P - / IZR two128 <= IZR t / IZR two128 <= P.
+Proof.
+  intros HP t. pose proof two128_pos as HK. pose proof (floor_range P HP) as Hr.
+  assert (Hpos : (0 < two128)%Z) by reflexivity.
+  set (K := IZR two128) in *. set (f := Zfloor (K * P)) in *.
+  assert (Hf1 : IZR f <= K * P) by apply Zfloor_lb.
+  assert (Hf2 : K * P < IZR f + 1) by apply Zfloor_ub.
+  assert (Ht : (t = f \/ (f = two128 /\ t = two128 - 1))%Z) by (unfold t; lia).
+  split. { unfold t. lia. }
+  assert (Hdiv : forall a b, a <= b -> a / K <= b / K).
+  { intros a b Hab. unfold Rdiv. apply Rmult_le_compat_r. apply Rlt_le, Rinv_0_lt_compat, HK. exact Hab. }
+  assert (HKK : K / K = 1) by (field; lra).
+  assert (HPK : K * P / K = P) by (field; lra).
+  destruct Ht as [E|[E1 E2]].
+  - rewrite E. split.
+    + replace (P - / K) with ((K * P - 1) / K) by (field; lra). apply Hdiv. lra.
+    + apply Rle_trans with (K * P / K); [now apply Hdiv|rewrite HPK; apply Rle_refl].
+  - rewrite E2. rewrite minus_IZR. fold K. change (IZR 1) with 1.
+    assert (HP1 : P = 1).
+    { rewrite E1 in Hf1. fold K in Hf1. apply Rle_antisym. apply HP.
+      apply Rmult_le_reg_l with K. exact HK. lra. }
+    rewrite HP1. split.
+    + replace ((K - 1) / K) with (1 - / K) by (field; lra). lra.
+    + replace ((K - 1) / K) with (1 - / K) by (field; lra).
+      assert (0 < / K) by now apply Rinv_0_lt_compat. lra.
+Qed.
+
+(* whatever real number Y the result of math.Pow is meant to approximate: the threshold, as a
+   fraction of 2^128, is within eps + 2^-53 + 2^-128 of 1 - Y, where eps is pow's own error *)
+Theorem error_bound_partial pow64 c1 c2 n Y eps :
+  pow_range pow64 -> (1 <= c1 < 2 ^ 64)%Z -> (1 <= c2 < 2 ^ 64)%Z -> (1 <= n < 2 ^ 63)%Z ->
+  R64 (ratio_of c1 c2) <= 1 ->
+  Rabs (R64 (pow64 (f64_sub f64_one (ratio_of c1 c2)) (theta_of n)) - Y) <= eps ->
+  exists t, calculate_threshold pow64 c1 c2 n = Ok t /\
+    Rabs (IZR (Z.of_N t) / IZR two128 - (1 - Y)) <= eps + bpow radix2 (-53) + / IZR two128.
+Proof.
+  intros Hr H1 H2 Hn Hc He.
+  destruct (exact_tail pow64 c1 c2 n Hr H1 H2 Hn Hc) as (_ & _ & _ & HP & E).
+  set (y := R64 (pow64 (f64_sub f64_one (ratio_of c1 c2)) (theta_of n))) in *.
+  set (P := RN (1 - y)) in *.
+  destruct (floor_sat_close P HP) as (Ht & Hclose). cbv zeta in Ht, Hclose.
+  eexists. split; [exact E|]. rewrite Z2N.id by lia.
+  set (q := IZR (Z.min (Zfloor (IZR two128 * P)) (two128 - 1)) / IZR two128) in *.
+  (* 0 <= y <= 1 *)
+  destruct (ratio_correct c1 c2 H1 H2) as (_ & A2 & A3).
+  destruct (theta_correct n Hn) as (_ & B2 & B3 & _).
+  destruct (one_minus_correct (ratio_of c1 c2) A2 (conj A3 Hc)) as (_ & F2 & F3).
+  destruct (Hr _ _ F2 F3 B2 B3) as (_ & Hy). fold y in Hy.
+  pose proof (RN_err_01 (1 - y)) as Herr. fold P in Herr.
+  assert (Herr' : Rabs (P - (1 - y)) <= bpow radix2 (-53)) by (apply Herr; lra).
+  pose proof two128_pos as HK. assert (HiK : 0 < / IZR two128) by now apply Rinv_0_lt_compat.
+  set (b := bpow radix2 (-53)) in *. set (iK := / IZR two128) in *.
+  apply Rabs_le. apply Rabs_le_inv in Herr'. apply Rabs_le_inv in He.
+  split; lra.
+Qed.
